@@ -260,5 +260,20 @@ def run(repo: Repo, tier: str) -> Report:
     rep.ob("R-FORMULA", AFILE, "ZonalStatistics.mean", "num_zones = len(zone_ids)", "num_zones = len(zone_ids)" in src, "", "num_zones = len(zone_ids)")
     rep.ob("R-FORMULA", AFILE, "ZonalStatistics.mean", "dims are (time, zones, stat) with stat = [mean, valid]",
            "dims = (xx.dims[0], dim_name, 'stat')" in src and any("'stat': ['mean', 'valid']" in k_ for k_ in src), "", "dims/coords")
+    # labelling of the result: first dim and its coordinate are the input's first (time) dim, then the zone ids, then the two statistics
+    from ..rules import resolve_local
+    das = [n_ for n_ in ast.walk(m) if isinstance(n_, ast.Call) and ast.unparse(n_.func).endswith("DataArray")]
+    okl, detl = False, "no DataArray(...) result"
+    if das:
+        kw_ = {k_.arg: ast.unparse(resolve_local(m, k_.value)) for k_ in das[-1].keywords if k_.arg}
+        want_dims = "(xx.dims[0], dim_name, 'stat')"
+        want_coords = "{(xx.dims[0], dim_name, 'stat')[0]: xx.coords[(xx.dims[0], dim_name, 'stat')[0]], dim_name: zone_ids, 'stat': ['mean', 'valid']}"
+        alt_coords = "{xx.dims[0]: xx.coords[xx.dims[0]], dim_name: zone_ids, 'stat': ['mean', 'valid']}"
+        okl = kw_.get("dims") == want_dims and kw_.get("coords") in (want_coords, alt_coords) and kw_.get("data") in ("data",) or False
+        if not okl and kw_.get("data") not in (None, "data"):
+            okl = kw_.get("dims") == want_dims and kw_.get("coords") in (want_coords, alt_coords)
+        detl = f"DataArray(dims={kw_.get('dims')}, coords={kw_.get('coords')})"
+    rep.ob("R-FORMULA", AFILE, "ZonalStatistics.mean", "the result is labelled (input's first dim with its coordinate, zones = zone_ids, stat = [mean, valid])", okl, detl,
+           das[-1] if das else "xarray.DataArray(...)")
     rep.floor("C16 obligations", len(rep.obls), 20)
     return rep
